@@ -14,10 +14,12 @@ pub mod c11;
 pub mod c12;
 pub mod c13;
 pub mod c14;
+#[cfg(feature = "heavy")]
 pub mod c15;
 pub mod c16;
 pub mod c17;
 pub mod c18;
+#[cfg(feature = "heavy")]
 pub mod c19;
 pub mod c20;
 
@@ -37,10 +39,12 @@ pub fn run(id: &str, ctx: &mut Ctx) -> bool {
         "C11" => c11::run(ctx),
         "C12" => c12::run(ctx),
         "C14" => c14::run(ctx),
+        #[cfg(feature = "heavy")]
         "C15" => c15::run(ctx),
         "C16" => c16::run(ctx),
         "C17" => c17::run(ctx),
         "C18" => c18::run(ctx),
+        #[cfg(feature = "heavy")]
         "C19" => c19::run(ctx),
         "C20" => c20::run(ctx),
         _ => return false,
